@@ -19,6 +19,9 @@ EXPLANATION = (
 EXPLANATION += (  # round-3 supplement
     ' R2 is decided on MIR data flow (scope starts at the parameter and is fed back from the found declaration, flag starts true and is false afterwards). R7 lexical scopes are children of the scope the expression is checked in.'
 )
+EXPLANATION += (
+    ' R8 a segment fetched from the path iterator after the first one - also the one that follows leading `super`s - reaches resolve_name only with the search-enclosing-scopes flag set to false (path rule on the MIR of resolve_module_part_of_path).'
+)
 ASSUMPTIONS = [
     "BTreeMap/HashMap lookups are exact-key lookups",
 ]
@@ -332,6 +335,81 @@ def rule_r7(F):
     return r
 
 
+def rule_r8(F):
+    """A segment that follows `super` is a later path segment: it is looked up only among the members of that module. On every
+    path from a call that takes a further segment from the path iterator to the lookup, the 'search enclosing scopes' flag
+    has been set to false."""
+    r = RuleResult("C13.R8", "a path segment taken after the first (also one that follows `super`) is never looked up through the enclosing scopes", floor=2)
+    ps = [p for p in F.paths() if p.endswith("::resolve_module_part_of_path")]
+    if not ps:
+        r.missing("resolve_module_part_of_path")
+        return r
+    b = F.body(ps[0])
+    defs = mir.Defs(b)
+    dom = mir.dominators(b)
+    calls = [(bi, t) for bi, t in mir.calls(b) if hir.last(mir.callee(t)) == "resolve_name" and len(t["args"]) == 4]
+    if not calls:
+        r.missing("call of resolve_name")
+        return r
+    nexts = [bi for bi, t in mir.calls(b) if hir.last(mir.callee_def(t) or "") == "next"]
+    first = [n for n in nexts if all(n in dom[m] for m in nexts)]
+    if len(nexts) < 2 or not first:
+        r.missing("segment fetches (Iterator::next) in resolve_module_part_of_path")
+        return r
+    for cbi, ct in calls:
+        a = ct["args"][3]
+        c = mir.op_const(a)
+        if c is not None:
+            val = c.get("v")
+            flag = None
+        else:
+            flag = a[1][0]
+            for _ in range(6):
+                ds = defs.whole_defs(flag)
+                if len(ds) == 1 and ds[0][2] == "assign" and ds[0][3]["rv"]["k"] == "use" and mir.is_place_op(ds[0][3]["rv"]["o"]) and len(ds[0][3]["rv"]["o"][1]) == 1:
+                    flag = ds[0][3]["rv"]["o"][1][0]
+                else:
+                    break
+        falses = set()
+        other = []
+        if flag is not None:
+            for d in defs.whole_defs(flag):
+                if d[2] == "assign" and d[3]["rv"]["k"] == "use" and mir.op_const(d[3]["rv"]["o"]) is not None:
+                    v = mir.op_const(d[3]["rv"]["o"]).get("v")
+                    if v in (0, False):
+                        falses.add(d[0])
+                else:
+                    other.append(d[0])
+        for n in nexts:
+            if n in first:
+                continue
+            # paths n -> cbi that avoid every block assigning false
+            seen, work, hit = set(), list(mir.succs(b.blocks[n])), False
+            while work:
+                x = work.pop()
+                if x in seen:
+                    continue
+                seen.add(x)
+                if x in falses:
+                    continue
+                if x == cbi:
+                    hit = True
+                    break
+                work.extend(mir.succs(b.blocks[x]))
+            if flag is None:
+                hit = val not in (0, False)
+            r.inst("segment fetched at line %s -> lookup at line %s" % (b.blocks[n]["term"].get("line"), ct.get("line")),
+                   {"flag_is_variable": flag is not None, "flag_set_false_on_every_path": not hit, "non_constant_assignments": len(other)})
+            if other:
+                r.missing("constant assignments to the recursion flag of resolve_name (found a computed one)")
+            elif hit:
+                r.bad(b.path, "a further path segment looked up through the enclosing scopes", relfile(b.file), b.blocks[n]["term"].get("line"),
+                      "a path segment fetched after the first one (line %s) reaches resolve_name (line %s) with the flag still true: it is searched in the enclosing scopes and imports "
+                      "instead of only among the members of the item before it (`super.pkg.f` resolves from inside pkg.a.b although pkg.a has no member pkg)"
+                      % (b.blocks[n]["term"].get("line"), ct.get("line")))
+    return r
+
+
 def rules(ctx):
     F = ctx["F"]
-    return [rule_r1(F), rule_r2(F), rule_r3(F), rule_r4(F), rule_r5(F), rule_r6(F), rule_r7(F)]
+    return [rule_r1(F), rule_r2(F), rule_r3(F), rule_r4(F), rule_r5(F), rule_r6(F), rule_r7(F), rule_r8(F)]
